@@ -231,7 +231,26 @@ func c09(c *ctx) {
 			subs = append(subs, feReq{Text: t.text, Inline: i%2 == 0, Switch: i%3 == 0, Compile: true, Strict: true, Args: []string{"peg", "x"}}) // identical twin
 		}
 	}
+	// every fourth sub-request generates twice in a row with one shared argument slice
+	for i := range subs {
+		subs[i].Twice = i%4 == 1
+	}
+	// at least a third of the concurrently compiled grammars reference undefined rules (stub creation is live)
+	for i := 0; i < len(subs)/3; i++ {
+		g, _ := gram.Planted(r)
+		g.Rules[0].E = gram.Seq(g.Rules[0].E, gram.Un(gram.KQuery, gram.Ref(fmt.Sprintf("Missing%d", i))), gram.Un(gram.KQuery, gram.Ref("MissingToo")))
+		txt := gram.PrintGrammar(g, gram.PrintOpts{Package: "g", State: corpus.StateBlock, ActionCode: func(id int) string { return fmt.Sprintf("p.actN(%d)", id) }})
+		subs = append(subs, feReq{Text: txt, Inline: i%2 == 0, Switch: i%3 == 0, Compile: true, Strict: true, Args: []string{"peg", "x"}})
+	}
 	seqRes := fe.run(subs)
+	for i, sr := range seqRes {
+		if sr.Repeat != "" {
+			c.run.Violate("repeat:"+report.Hash(subs[i].Text), "generating twice in one process with the same argument list gave different results: "+sr.Repeat, map[string]any{"text": subs[i].Text, "detail": sr.Repeat})
+		}
+		if subs[i].Twice {
+			c.run.Count("repeated_generations_with_shared_arguments", 1)
+		}
+	}
 	concReq := []feReq{{Conc: subs, Gor: 16, Reps: tierN(c, 2, 6)}, {Conc: subs[:len(subs)/2], Gor: 4, Reps: tierN(c, 2, 8)}}
 	concRes := fe.run(concReq)
 	for qi, cr := range concRes {
@@ -246,7 +265,7 @@ func c09(c *ctx) {
 				json.Unmarshal([]byte(js), &got)
 				c.run.Eval(cnt)
 				c.run.Count("concurrent_compile_calls", cnt)
-				if got.Accepted != want.Accepted || got.TreeSHA != want.TreeSHA || got.CodeSHA != want.CodeSHA || got.CompileErr != want.CompileErr || got.Panic != want.Panic {
+				if got.Accepted != want.Accepted || got.TreeSHA != want.TreeSHA || got.CodeSHA != want.CodeSHA || got.CompileErr != want.CompileErr || got.Panic != want.Panic || got.Repeat != want.Repeat {
 					c.run.Violate("conc-differs:"+report.Hash(subs[i].Text, fmt.Sprint(qi)), "a Compile running concurrently with others produced something else than alone",
 						map[string]any{"text": subs[i].Text, "alone": want, "concurrent": got})
 				}
@@ -268,7 +287,7 @@ func c09(c *ctx) {
 	}
 	c.run.Sample(map[string]any{"grammar": texts[1].name, "options": optSets[1], "repetitions": K, "GOMAXPROCS": gomax, "distinct_interleavings_for_this_pair": len(sigsPer[key{1, 1}])}, 3)
 	c.run.Rule = "cases: the shipped grammars plus generated ones (a quarter with planted diagnostics so that the warning path, stub creation and unused-rule path are live) x option sets; each (grammar, options, argument list) is generated K times in separate processes with GOMAXPROCS in {1,2,4,16} and distinct seeds of the build-tagged schedule perturbation hook (yield / 1-200us sleep at every step of the two concurrent analysis goroutines), with the hook's interleaving log on (non-race build) and again under the race detector with the log off (so that the hook adds no synchronisation); " +
-		"finally 16 and 4 goroutines run parse+Execute+Compile on independent trees (distinct and identical texts) in one -race process. Oracle: identical exit status, stderr and sha256(stdout) for all repetitions of a pair; zero race reports; concurrent Compile results equal the sequential ones. " +
+		"finally 16 and 4 goroutines run parse+Execute+Compile on independent trees (distinct and identical texts, a third with undefined names; a quarter generating twice with one shared argument slice) in one -race process whose very first activity is that concurrent batch. Oracle: identical exit status, stderr and sha256(stdout) for all repetitions of a pair; zero race reports; concurrent Compile results equal the sequential ones. " +
 		"distinct_nontrivial = distinct (grammar, options) pairs that were observed under at least two different interleavings of the analysis goroutines (hook log)."
 	c.run.Assume("schedules are those produced by the Go scheduler under the hook's perturbation; not replayable bit for bit (no rr); the replay of a race is the detector's report plus the seed")
 }
